@@ -1024,7 +1024,7 @@ func verifLemmaZeroVector(bits BitVec) {}
 //@ func opSstore(pc *uint64, evm *EVM, scope *ScopeContext) (ret []byte, err error)
 //@   serves C29
 //@   requires scope.Stack != nil && stackInv(scope.Stack) && scope.Stack.size >= 2 && scope.Contract != nil && scope.Memory != nil
-//@   noframe
+//@   ownwrites
 //@   mutates
 //@   ghostvar wrote bool = false
 //@   oncall SetState SetTransientState AddLog AddBalance SubBalance SelfDestruct SelfDestruct6780 CreateAccount CreateContract SetCode SetNonce AddRefund SubRefund Call CallCode Create Create2 create AddAddressToAccessList AddSlotToAccessList: wrote = true
@@ -1033,7 +1033,7 @@ func verifLemmaZeroVector(bits BitVec) {}
 //@ func opTstore(pc *uint64, evm *EVM, scope *ScopeContext) (ret []byte, err error)
 //@   serves C29
 //@   requires scope.Stack != nil && stackInv(scope.Stack) && scope.Stack.size >= 2 && scope.Contract != nil && scope.Memory != nil
-//@   noframe
+//@   ownwrites
 //@   mutates
 //@   ghostvar wrote bool = false
 //@   oncall SetState SetTransientState AddLog AddBalance SubBalance SelfDestruct SelfDestruct6780 CreateAccount CreateContract SetCode SetNonce AddRefund SubRefund Call CallCode Create Create2 create AddAddressToAccessList AddSlotToAccessList: wrote = true
@@ -1042,7 +1042,7 @@ func verifLemmaZeroVector(bits BitVec) {}
 //@ func opSelfdestruct(pc *uint64, evm *EVM, scope *ScopeContext) (ret []byte, err error)
 //@   serves C29
 //@   requires scope.Stack != nil && stackInv(scope.Stack) && scope.Stack.size >= 1 && scope.Contract != nil && scope.Memory != nil
-//@   noframe
+//@   ownwrites
 //@   mutates
 //@   ghostvar wrote bool = false
 //@   oncall SetState SetTransientState AddLog AddBalance SubBalance SelfDestruct SelfDestruct6780 CreateAccount CreateContract SetCode SetNonce AddRefund SubRefund Call CallCode Create Create2 create AddAddressToAccessList AddSlotToAccessList: wrote = true
@@ -1051,7 +1051,7 @@ func verifLemmaZeroVector(bits BitVec) {}
 //@ func opSelfdestruct6780(pc *uint64, evm *EVM, scope *ScopeContext) (ret []byte, err error)
 //@   serves C29
 //@   requires scope.Stack != nil && stackInv(scope.Stack) && scope.Stack.size >= 1 && scope.Contract != nil && scope.Memory != nil
-//@   noframe
+//@   ownwrites
 //@   mutates
 //@   ghostvar wrote bool = false
 //@   oncall SetState SetTransientState AddLog AddBalance SubBalance SelfDestruct SelfDestruct6780 CreateAccount CreateContract SetCode SetNonce AddRefund SubRefund Call CallCode Create Create2 create AddAddressToAccessList AddSlotToAccessList: wrote = true
@@ -1063,7 +1063,7 @@ func verifLemmaZeroVector(bits BitVec) {}
 //@ func gasSStore(evm *EVM, contract *Contract, stack *Stack, mem *Memory, memorySize uint64) (costs GasCosts, err error)
 //@   serves C29
 //@   requires stackInv(stack) && stack.size >= 2 && contract != nil && mem != nil && memWf(mem)
-//@   noframe
+//@   ownwrites
 //@   mutates
 //@   ghostvar wrote bool = false
 //@   oncall SetState SetTransientState AddLog AddBalance SubBalance SelfDestruct SelfDestruct6780 CreateAccount CreateContract SetCode SetNonce AddRefund SubRefund Call CallCode Create Create2 create AddAddressToAccessList AddSlotToAccessList: wrote = true
@@ -1072,7 +1072,7 @@ func verifLemmaZeroVector(bits BitVec) {}
 //@ func gasSStoreEIP2200(evm *EVM, contract *Contract, stack *Stack, mem *Memory, memorySize uint64) (costs GasCosts, err error)
 //@   serves C29
 //@   requires stackInv(stack) && stack.size >= 2 && contract != nil && mem != nil && memWf(mem)
-//@   noframe
+//@   ownwrites
 //@   mutates
 //@   ghostvar wrote bool = false
 //@   oncall SetState SetTransientState AddLog AddBalance SubBalance SelfDestruct SelfDestruct6780 CreateAccount CreateContract SetCode SetNonce AddRefund SubRefund Call CallCode Create Create2 create AddAddressToAccessList AddSlotToAccessList: wrote = true
@@ -1082,7 +1082,7 @@ func verifLemmaZeroVector(bits BitVec) {}
 //@   serves C29
 //@   requires stackInv(stack) && stack.size >= 2 && contract != nil && mem != nil && memWf(mem)
 //@   requires ranged(contract.Gas) && contract.Gas.StateGas + 1099511627776 <= TMAX() && evm.Context.CostPerStateByte <= 4294967296
-//@   noframe
+//@   ownwrites
 //@   mutates
 //@   ghostvar wrote bool = false
 //@   oncall SetState SetTransientState AddLog AddBalance SubBalance SelfDestruct SelfDestruct6780 CreateAccount CreateContract SetCode SetNonce AddRefund SubRefund Call CallCode Create Create2 create AddAddressToAccessList AddSlotToAccessList: wrote = true
@@ -1091,7 +1091,7 @@ func verifLemmaZeroVector(bits BitVec) {}
 //@ func gasCreate(evm *EVM, contract *Contract, stack *Stack, mem *Memory, memorySize uint64) (costs GasCosts, err error)
 //@   serves C29
 //@   requires stackInv(stack) && stack.size >= 3 && contract != nil && mem != nil && memWf(mem)
-//@   noframe
+//@   ownwrites
 //@   mutates
 //@   ghostvar wrote bool = false
 //@   oncall SetState SetTransientState AddLog AddBalance SubBalance SelfDestruct SelfDestruct6780 CreateAccount CreateContract SetCode SetNonce AddRefund SubRefund Call CallCode Create Create2 create AddAddressToAccessList AddSlotToAccessList: wrote = true
@@ -1100,7 +1100,7 @@ func verifLemmaZeroVector(bits BitVec) {}
 //@ func gasCreate2(evm *EVM, contract *Contract, stack *Stack, mem *Memory, memorySize uint64) (costs GasCosts, err error)
 //@   serves C29
 //@   requires stackInv(stack) && stack.size >= 4 && contract != nil && mem != nil && memWf(mem)
-//@   noframe
+//@   ownwrites
 //@   mutates
 //@   ghostvar wrote bool = false
 //@   oncall SetState SetTransientState AddLog AddBalance SubBalance SelfDestruct SelfDestruct6780 CreateAccount CreateContract SetCode SetNonce AddRefund SubRefund Call CallCode Create Create2 create AddAddressToAccessList AddSlotToAccessList: wrote = true
@@ -1109,7 +1109,7 @@ func verifLemmaZeroVector(bits BitVec) {}
 //@ func gasCreateEip3860(evm *EVM, contract *Contract, stack *Stack, mem *Memory, memorySize uint64) (costs GasCosts, err error)
 //@   serves C29
 //@   requires stackInv(stack) && stack.size >= 3 && contract != nil && mem != nil && memWf(mem)
-//@   noframe
+//@   ownwrites
 //@   mutates
 //@   ghostvar wrote bool = false
 //@   oncall SetState SetTransientState AddLog AddBalance SubBalance SelfDestruct SelfDestruct6780 CreateAccount CreateContract SetCode SetNonce AddRefund SubRefund Call CallCode Create Create2 create AddAddressToAccessList AddSlotToAccessList: wrote = true
@@ -1118,7 +1118,7 @@ func verifLemmaZeroVector(bits BitVec) {}
 //@ func gasCreate2Eip3860(evm *EVM, contract *Contract, stack *Stack, mem *Memory, memorySize uint64) (costs GasCosts, err error)
 //@   serves C29
 //@   requires stackInv(stack) && stack.size >= 4 && contract != nil && mem != nil && memWf(mem)
-//@   noframe
+//@   ownwrites
 //@   mutates
 //@   ghostvar wrote bool = false
 //@   oncall SetState SetTransientState AddLog AddBalance SubBalance SelfDestruct SelfDestruct6780 CreateAccount CreateContract SetCode SetNonce AddRefund SubRefund Call CallCode Create Create2 create AddAddressToAccessList AddSlotToAccessList: wrote = true
@@ -1127,7 +1127,7 @@ func verifLemmaZeroVector(bits BitVec) {}
 //@ func gasCreateEip8037(evm *EVM, contract *Contract, stack *Stack, mem *Memory, memorySize uint64) (costs GasCosts, err error)
 //@   serves C29
 //@   requires stackInv(stack) && stack.size >= 3 && contract != nil && mem != nil && memWf(mem)
-//@   noframe
+//@   ownwrites
 //@   mutates
 //@   ghostvar wrote bool = false
 //@   oncall SetState SetTransientState AddLog AddBalance SubBalance SelfDestruct SelfDestruct6780 CreateAccount CreateContract SetCode SetNonce AddRefund SubRefund Call CallCode Create Create2 create AddAddressToAccessList AddSlotToAccessList: wrote = true
@@ -1136,7 +1136,7 @@ func verifLemmaZeroVector(bits BitVec) {}
 //@ func gasCreate2Eip8037(evm *EVM, contract *Contract, stack *Stack, mem *Memory, memorySize uint64) (costs GasCosts, err error)
 //@   serves C29
 //@   requires stackInv(stack) && stack.size >= 4 && contract != nil && mem != nil && memWf(mem)
-//@   noframe
+//@   ownwrites
 //@   mutates
 //@   ghostvar wrote bool = false
 //@   oncall SetState SetTransientState AddLog AddBalance SubBalance SelfDestruct SelfDestruct6780 CreateAccount CreateContract SetCode SetNonce AddRefund SubRefund Call CallCode Create Create2 create AddAddressToAccessList AddSlotToAccessList: wrote = true
@@ -1145,7 +1145,7 @@ func verifLemmaZeroVector(bits BitVec) {}
 //@ func gasSelfdestruct(evm *EVM, contract *Contract, stack *Stack, mem *Memory, memorySize uint64) (costs GasCosts, err error)
 //@   serves C29
 //@   requires stackInv(stack) && stack.size >= 1 && contract != nil && mem != nil && memWf(mem)
-//@   noframe
+//@   ownwrites
 //@   mutates
 //@   ghostvar wrote bool = false
 //@   oncall SetState SetTransientState AddLog AddBalance SubBalance SelfDestruct SelfDestruct6780 CreateAccount CreateContract SetCode SetNonce AddRefund SubRefund Call CallCode Create Create2 create AddAddressToAccessList AddSlotToAccessList: wrote = true
@@ -1154,7 +1154,7 @@ func verifLemmaZeroVector(bits BitVec) {}
 //@ func gasSelfdestruct8037And8038(evm *EVM, contract *Contract, stack *Stack, mem *Memory, memorySize uint64) (costs GasCosts, err error)
 //@   serves C29
 //@   requires stackInv(stack) && stack.size >= 1 && contract != nil && mem != nil && memWf(mem)
-//@   noframe
+//@   ownwrites
 //@   mutates
 //@   ghostvar wrote bool = false
 //@   oncall SetState SetTransientState AddLog AddBalance SubBalance SelfDestruct SelfDestruct6780 CreateAccount CreateContract SetCode SetNonce AddRefund SubRefund Call CallCode Create Create2 create AddAddressToAccessList AddSlotToAccessList: wrote = true
@@ -1163,7 +1163,7 @@ func verifLemmaZeroVector(bits BitVec) {}
 //@ func gasCallIntrinsic(evm *EVM, contract *Contract, stack *Stack, mem *Memory, memorySize uint64) (gas uint64, err error)
 //@   serves C29
 //@   requires stackInv(stack) && stack.size >= 7 && contract != nil && mem != nil && memWf(mem)
-//@   noframe
+//@   ownwrites
 //@   mutates
 //@   ghostvar wrote bool = false
 //@   oncall SetState SetTransientState AddLog AddBalance SubBalance SelfDestruct SelfDestruct6780 CreateAccount CreateContract SetCode SetNonce AddRefund SubRefund Call CallCode Create Create2 create AddAddressToAccessList AddSlotToAccessList: wrote = true
@@ -1172,7 +1172,7 @@ func verifLemmaZeroVector(bits BitVec) {}
 //@ func executionGasCall8038(evm *EVM, contract *Contract, stack *Stack, mem *Memory, memorySize uint64) (gas uint64, err error)
 //@   serves C29
 //@   requires stackInv(stack) && stack.size >= 7 && contract != nil && mem != nil && memWf(mem)
-//@   noframe
+//@   ownwrites
 //@   mutates
 //@   ghostvar wrote bool = false
 //@   oncall SetState SetTransientState AddLog AddBalance SubBalance SelfDestruct SelfDestruct6780 CreateAccount CreateContract SetCode SetNonce AddRefund SubRefund Call CallCode Create Create2 create AddAddressToAccessList AddSlotToAccessList: wrote = true
@@ -1181,7 +1181,7 @@ func verifLemmaZeroVector(bits BitVec) {}
 //@ func gasCallEIP7702(evm *EVM, contract *Contract, stack *Stack, mem *Memory, memorySize uint64) (costs GasCosts, err error)
 //@   serves C29
 //@   requires stackInv(stack) && stack.size >= 7 && contract != nil && mem != nil && memWf(mem)
-//@   noframe
+//@   ownwrites
 //@   mutates
 //@   ghostvar wrote bool = false
 //@   oncall SetState SetTransientState AddLog AddBalance SubBalance SelfDestruct SelfDestruct6780 CreateAccount CreateContract SetCode SetNonce AddRefund SubRefund Call CallCode Create Create2 create AddAddressToAccessList AddSlotToAccessList: wrote = true
@@ -1190,7 +1190,7 @@ func verifLemmaZeroVector(bits BitVec) {}
 //@ func gasCall8038(evm *EVM, contract *Contract, stack *Stack, mem *Memory, memorySize uint64) (costs GasCosts, err error)
 //@   serves C29
 //@   requires stackInv(stack) && stack.size >= 7 && contract != nil && mem != nil && memWf(mem)
-//@   noframe
+//@   ownwrites
 //@   mutates
 //@   ghostvar wrote bool = false
 //@   oncall SetState SetTransientState AddLog AddBalance SubBalance SelfDestruct SelfDestruct6780 CreateAccount CreateContract SetCode SetNonce AddRefund SubRefund Call CallCode Create Create2 create AddAddressToAccessList AddSlotToAccessList: wrote = true
@@ -1201,7 +1201,7 @@ func verifLemmaZeroVector(bits BitVec) {}
 //@   serves C29
 //@   requires scope.Stack != nil && stackInv(scope.Stack) && 0 <= size && size <= 4 && scope.Stack.size >= 2 + size && scope.Contract != nil && scope.Memory != nil
 //@   requires sval(scope.Stack, 1) == 0 || (sval(scope.Stack, 0) + sval(scope.Stack, 1) <= len(scope.Memory.store))
-//@   noframe
+//@   ownwrites
 //@   mutates
 //@   ghostvar wrote bool = false
 //@   oncall SetState SetTransientState AddLog AddBalance SubBalance SelfDestruct SelfDestruct6780 CreateAccount CreateContract SetCode SetNonce AddRefund SubRefund Call CallCode Create Create2 create AddAddressToAccessList AddSlotToAccessList: wrote = true
@@ -1214,7 +1214,7 @@ func verifLemmaZeroVector(bits BitVec) {}
 //@ func makeGasSStoreFunc$1(evm *EVM, contract *Contract, stack *Stack, mem *Memory, memorySize uint64) (costs GasCosts, err error)
 //@   serves C29
 //@   requires stackInv(stack) && stack.size >= 2 && contract != nil && mem != nil
-//@   noframe
+//@   ownwrites
 //@   mutates
 //@   ghostvar wrote bool = false
 //@   oncall SetState SetTransientState AddLog AddBalance SubBalance SelfDestruct SelfDestruct6780 CreateAccount CreateContract SetCode SetNonce AddRefund SubRefund Call CallCode Create Create2 create AddAddressToAccessList AddSlotToAccessList: wrote = true
@@ -1223,7 +1223,7 @@ func verifLemmaZeroVector(bits BitVec) {}
 //@ func makeSelfdestructGasFn$1(evm *EVM, contract *Contract, stack *Stack, mem *Memory, memorySize uint64) (costs GasCosts, err error)
 //@   serves C29
 //@   requires stackInv(stack) && stack.size >= 1 && contract != nil && mem != nil
-//@   noframe
+//@   ownwrites
 //@   mutates
 //@   ghostvar wrote bool = false
 //@   oncall SetState SetTransientState AddLog AddBalance SubBalance SelfDestruct SelfDestruct6780 CreateAccount CreateContract SetCode SetNonce AddRefund SubRefund Call CallCode Create Create2 create AddAddressToAccessList AddSlotToAccessList: wrote = true
@@ -1234,7 +1234,8 @@ func verifLemmaZeroVector(bits BitVec) {}
 //@   serves C29
 //@   requires scope.Stack != nil && stackInv(scope.Stack) && scope.Stack.size >= 7 && scope.Contract != nil && scope.Memory != nil
 //@   requires sval(scope.Stack, 4) % 18446744073709551616 == 0 || (sval(scope.Stack, 3) % 18446744073709551616 + sval(scope.Stack, 4) % 18446744073709551616 <= len(scope.Memory.store))
-//@   noframe
+//@   ownwrites
+//@   modifies evm.returnData
 //@   mutates
 //@   ghostvar wrote bool = false
 //@   oncall SetState SetTransientState AddLog AddBalance SubBalance SelfDestruct SelfDestruct6780 CreateAccount CreateContract SetCode SetNonce AddRefund SubRefund Call CallCode Create Create2 create AddAddressToAccessList AddSlotToAccessList: wrote = true
